@@ -10,6 +10,9 @@
 (*            oracle: normalised mean of the corner unit vectors) it sits  *)
 (*            at, -1 if none within the tolerance                          *)
 (*   posown : the same against the centres the primal grid itself reports  *)
+(*   pos_da : the same for the dual attached by UxDataArray.get_dual       *)
+(*   primal_changed(_by_data_routes) : names of stored variables of the    *)
+(*            primal grid whose bytes differ after the call                *)
 (*   expect : (generated cases) the ring table TLC emitted with the case   *)
 (*   fdata  : [dims, vals, base] face-centred tracer base+i after get_dual *)
 (*   ndata  : [dims, vals, base] node-centred (time, n_node) tracer        *)
@@ -63,6 +66,9 @@ Clauses(r) ==
     DualFaceDim      |-> Has(r, "dn_face") => r.dn_face = Len(D),
     EulerDuality     |-> (cl /\ Has(r, "dn_edge")) => r.dn_edge = Cardinality(EdgeSet(mesh)),
     DualNodeAtFaceCentre     |-> Has(r, "pos") => r.pos = [ k \in 1..Len(mesh) |-> k - 1 ],
+    DataRouteNodesAtCentre   |-> Has(r, "pos_da") => r.pos_da = [ k \in 1..Len(mesh) |-> k - 1 ],
+    PrimalUnchanged          |-> /\ (Has(r, "primal_changed") => r.primal_changed = << >>)
+                                 /\ (Has(r, "primal_changed_by_data_routes") => r.primal_changed_by_data_routes = << >>),
     DualNodeAtReportedCentre |-> Has(r, "posown") => r.posown = [ k \in 1..Len(mesh) |-> k - 1 ],
     FaceDataToNodes  |-> (cl /\ Has(r, "fdata")) =>
                             /\ r.fdata.dims = << "n_node" >>
